@@ -555,8 +555,13 @@ func runDeterminism(t *testing.T, w World) int {
 	tier := os.Getenv("VERIF_TIER")
 	seed := uint64(envInt("VERIF_SEED", 1))
 	n := int(envInt("VERIF_W_COUNT", 50))
-	for i := 0; i < n; i++ {
+	from := int(envInt("VERIF_W_START", 0))
+	logDir := os.Getenv("VERIF_DET_LOGDIR") // optional: full event logs per run, for diffing a divergence
+	for i := from; i < from+n; i++ {
 		r := RunOne(t, w, prop, tier, NewGenTape(seed, uint64(i)), uint64(i))
+		if logDir != "" {
+			os.WriteFile(filepath.Join(logDir, fmt.Sprintf("run%d.%d.log", i, os.Getpid())), []byte(strings.Join(r.Log, "\n")+"\n"), 0o644)
+		}
 		if r.Trouble != "" {
 			fmt.Println("TROUBLE", r.Trouble)
 			return 2
